@@ -1022,3 +1022,71 @@ def check_C18(rep, tier):
     rep.assumptions += ["walkdir and the OS resolve links; dangling links are outside C18's quantifier",
                         "digests recomputed independently with ring over the whole file in one call",
                         "files have pairwise distinct contents so that an entry's digest identifies the file"]
+
+
+# ----------------------------------------------------------------------------- C14
+def check_C14(rep, tier):
+    rep.cov["rule"] = ("Robust.tla states totality (a call yields a value or an error, nothing else) and the adversarial class lattice: "
+                       "per field of link files, layouts, rule inputs and key material a set of representable-but-unusual classes "
+                       "(key ids with a multi-byte character straddling byte 8, non-normalised / absolute / empty / glob paths, extreme "
+                       "and ill-typed numbers, malformed digests, truncated DER / PEM, wrong OIDs, ...).  TLC enumerates every document "
+                       "with at most two unusual fields; each is offered to every entry point (parsers, block verification, rule "
+                       "application, key importers, final-product verification with the file placed in the link directory before any "
+                       "signature is checked) under a panic guard, in processes whose death is attributed to the scenario; the call log "
+                       "is validated against Trace_Robust.tla.  Byte level: seeded mutation of well-formed documents.  Every scenario "
+                       "of the other properties also runs under the same guard.  Non-trivial = document with an unusual field.")
+    sh = Sharder("C14")
+    kinds = {}
+
+    def on_scn(s):
+        i = sh.add({k: s[k] for k in ("m", "kind", "doc")})
+        kinds[i] = (s["kind"], s["entries"])
+        rep.nontrivial(i)
+        if i % 307 == 5:
+            rep.sample({"kind": s["kind"], "doc": s["doc"]})
+
+    st = run_tlc("MC_C14", f"MC_C14_{tier}.cfg", "c14", on_scn=on_scn, timeout=600)
+    require_clean(st, "MC_C14")
+    rep.add_tlc(st, "MC_C14")
+    rep.vacuity(["BNext"])
+    rep.cov["exhaustive"] = True
+    sh.run(per_shard_cwd=True, tolerate_death=True, timeout=1200)
+    trace = os.path.join(vlib.OUT, "c14.trace.ndjson")
+    done = set()
+    n = 0
+    with open(trace, "w") as tf:
+        for r in sh.results():
+            i = r["i"]
+            done.add(i)
+            n += 1
+            if "calls" not in r:
+                rep.mismatch({"kind": "harness", "detail": json.dumps(r)[:100]}, lambda i=i, r=r: {"scn": sh.scenario(i), "actual": r})
+                continue
+            tf.write(json.dumps({"ev": "doc", "kind": kinds[i][0], "i": i}) + "\n")
+            for c in r["calls"]:
+                tf.write(json.dumps({"ev": "call", "entry": c["entry"], "res": c["res"]}) + "\n")
+                if c["res"] not in ("value", "error"):
+                    doc = sh.scenario(i)["doc"]
+                    unusual = sorted(f"{k}={v}" for k, v in doc.items() if v not in ("ok", "one", "link", "plain", "list", "normal", "null", "none", "owner", "present", "spki_ed25519"))
+                    rep.mismatch({"kind": c["res"], "entry": c["entry"], "doc": kinds[i][0], "unusual": unusual[:2]},
+                                 lambda i=i, r=r: {"scn": sh.scenario(i), "actual": r})
+    # a dead worker: the first scenario of its shard without a result is the culprit
+    for shard, rc in getattr(sh, "deaths", []):
+        with open(os.path.join(sh.dir, f"in{shard}.ndjson")) as f:
+            ids = [json.loads(x)["i"] for x in f if x.strip()]
+        culprit = next((i for i in ids if i not in done), None)
+        rep.mismatch({"kind": "process_died", "rc": rc}, lambda c=culprit: {"scn": sh.scenario(c) if c is not None else None})
+    rep.cov["evaluations"] = n
+    total, rejected, tst = validate_trace(trace, "Trace_Robust", "Trace_Robust.cfg", "t14", reset_ev="doc")
+    rep.cov["traces_validated_against_impl"] = total - len(rejected)
+    rep.cov["parts"]["trace"] = {"runs": total, "rejected": len(rejected), "states": tst.distinct}
+    os.remove(trace)
+    sh.cleanup()
+    res = last_json(run_itv(["record", "C14mut", "20000" if tier == "quick" else "2000000"], timeout=6000))
+    rep.cov["byte_mutations"] = res["n"]
+    rep.cov["mutation_outcomes"] = {k: res[k] for k in ("value", "error", "panic")}
+    rep.cov["evaluations"] += res["n"]
+    for b in res["bad"]:
+        rep.mismatch({"kind": "panic", "entry": "byte_mutation"}, {"case": b})
+    rep.assumptions += ["'all byte strings' is explored by seeded mutation of specification-generated documents, not decided",
+                        "stack overflow / abort is observed as death of the worker process; non-termination as the harness timeout (tool error)"]
